@@ -26,7 +26,7 @@ ALLP = ["D0", "SOne", "SChain", "SIndep", "SNest", "SLit", "S2", "VmD", "VmS", "
 FAST = ["VmAx1", "STup3", "D0", "SOne", "SChain", "SIndep", "SNest", "SLit", "S2", "SDm", "MskSw", "VmSw", "SwN", "VmD", "VmS", "VmAx", "VmAx2", "VmMask", "Rep", "Rep3",
         "SwXY", "SwSame", "Sw3", "SSw", "SVm", "Msk", "MskD", "Dm", "Dm2", "DmMap", "DmCon", "OrE", "MixE"]
 SLOW = ["Sc1", "Sc2", "Sc3", "ScSw", "DmSc", "Acc", "Red", "It", "ItF"]    # masked-iterate programs belong to C16 only
-EAGER = ["STup3", "Clo1", "Clo2", "Clo0", "CloP", "CloK", "D0", "SOne", "SChain", "SIndep", "SNest", "SLit", "S2", "SDup", "Dm", "Dm2", "DmMap", "DmCon", "Msk", "MskD"]
+EAGER = ["STup3", "CloPK", "CloPK2", "Clo1", "Clo2", "Clo0", "CloP", "CloK", "D0", "SOne", "SChain", "SIndep", "SNest", "SLit", "S2", "SDup", "Dm", "Dm2", "DmMap", "DmCon", "Msk", "MskD"]
 EAGER_ND = [x for x in EAGER if x != "SDup"]
 REGEN = ["STup3", "D0", "SOne", "SChain", "SIndep", "SNest", "S2", "SDm", "Dm", "Dm2", "DmMap", "DmCon"]
 REGEN_SLOW = ["Sc1", "Sc2", "DmSc", "It"]
@@ -92,7 +92,7 @@ PROFILES = {
                 gens=[dict(ids=[x for x in FAST if x not in ("SLit",)] + ["VmNest"], first=["simulate", "generate"], edits=["update", "update", "updateargs", "regenerate", "project"], depth=2, n=(48, 1500)),
                       dict(ids=SLOW, first=["simulate", "generate"], edits=["update", "regenerate", "indexupdate"], depth=1, n=(8, 300))]),
     "C32": dict(own=CORE + ["derived.run", "derived.same", "undo.run", "undo.restore", "undo.weight"],
-                gens=[dict(ids=["Clo1", "Clo2", "Clo0", "CloP", "CloK", "CloSw", "CloVm"], first=["simulate", "generate"],
+                gens=[dict(ids=["Clo1", "Clo2", "Clo0", "CloP", "CloK", "CloPK", "CloPK2", "CloSw", "CloVm"], first=["simulate", "generate"],
                            edits=["update", "update", "updateargs", "regenerate", "project", "assess"], depth=3, n=(120, 1500))]),
     "C34": dict(own=["subtrace.choices", "subtrace.score", "run"],
                 gens=[dict(ids=["SOne", "SChain", "SIndep", "SNest", "S2", "VmS", "VmAx", "Rep", "Msk", "Dm", "Dm2"], first=["simulate", "generate"], edits=["subtrace", "subtrace", "update"], depth=3, n=(128, 2000)),
